@@ -46,6 +46,7 @@ type collObs struct {
 	probe          map[string]bool // probe delivered
 	unresolved     map[string]bool
 	conn           map[string]*vnet.Conn
+	pfx            string // prefix of the flag names (second round of a scenario)
 }
 
 func newCollObs() *collObs {
@@ -124,22 +125,22 @@ func collTail(w *world.World, r *world.Remote, dir string, o *collObs) {
 				r.Deadline(time.Second)
 				r.Drain()
 				o.eof[dir] = r.EOF || r.ReadErr != nil
-				w.SetFlag(dir + "-dead")
+				w.SetFlag(o.pfx + dir + "-dead")
 				return
 			}
 			continue // stray KEEPALIVE etc.
 		}
 		if r.EOF || r.ReadErr != nil {
 			o.eof[dir] = true
-			w.SetFlag(dir + "-dead")
+			w.SetFlag(o.pfx + dir + "-dead")
 			return
 		}
 		// timeout: untouched so far
-		if w.Flag(otherDir(dir) + "-dead") {
+		if w.Flag(o.pfx + otherDir(dir) + "-dead") {
 			break
 		}
 	}
-	if !w.Flag(otherDir(dir) + "-dead") {
+	if !w.Flag(o.pfx + otherDir(dir) + "-dead") {
 		o.unresolved[dir] = true
 		return
 	}
@@ -183,17 +184,30 @@ func collOpen(cfg collCfg) []byte { return wire.Open(cfg.remoteAS, 90, cfg.remot
 // forcedCollision: the remote sends its OPEN on both connections (on `first`
 // first, on the other only after corebgp's KEEPALIVE was seen on `first`) and
 // withholds its own KEEPALIVE until the collision is resolved.
-func forcedCollisionScript(cfg collCfg, first string) func(w *world.World, r *world.Remote, dir string, o *collObs) {
+func forcedCollisionScript(cfg collCfg, first string, kill ...string) func(w *world.World, r *world.Remote, dir string, o *collObs) {
+	how := ""
+	if len(kill) > 0 {
+		how = kill[0]
+	}
 	return func(w *world.World, r *world.Remote, dir string, o *collObs) {
 		if _, ok := r.Expect(wire.TypeOpen); !ok {
 			return
 		}
 		o.gotOpen[dir] = true
-		w.SetFlag(dir + "-open")
+		w.SetFlag(o.pfx + dir + "-open")
 		// both connections must exist and carry corebgp's OPEN before the remote answers any
-		w.WaitFlag(otherDir(dir) + "-open")
+		w.WaitFlag(o.pfx + otherDir(dir) + "-open")
 		if dir != first {
-			w.WaitFlag(first + "-ka")
+			w.WaitFlag(o.pfx + first + "-ka")
+			// kill variants: at the moment its second OPEN goes out the remote itself ends the first connection
+			if fc := o.conn[first]; fc != nil {
+				switch how {
+				case "cease":
+					fc.Write(wire.Notification(6, 7, nil))
+				case "fin":
+					fc.CloseWrite()
+				}
+			}
 		}
 		r.Send(collOpen(cfg))
 		if _, ok := r.Expect(wire.TypeKeepalive); !ok {
@@ -204,12 +218,12 @@ func forcedCollisionScript(cfg collCfg, first string) func(w *world.World, r *wo
 				r.Drain()
 			}
 			o.eof[dir] = r.EOF || r.ReadErr != nil
-			w.SetFlag(dir + "-ka") // unblock the other script
-			w.SetFlag(dir + "-dead")
+			w.SetFlag(o.pfx + dir + "-ka") // unblock the other script
+			w.SetFlag(o.pfx + dir + "-dead")
 			return
 		}
 		o.gotKA[dir] = true
-		w.SetFlag(dir + "-ka")
+		w.SetFlag(o.pfx + dir + "-ka")
 		collTail(w, r, dir, o)
 	}
 }
@@ -251,6 +265,115 @@ func judgeForcedCollision(cfg collCfg, w *world.World, o *collObs) (string, stri
 		return "loser-not-closed", "the losing connection was not closed"
 	}
 	return monitorCallbacks(w)
+}
+
+// judgeForcedKill: the remote ended the first connection itself while the collision was being
+// resolved. Whatever wins, corebgp must not wedge: the second connection (which the remote did not
+// touch) is either Established in the end or was closed by corebgp with a Cease; never both up.
+func judgeForcedKill(first string, w *world.World, o *collObs) (string, string) {
+	second := otherDir(first)
+	if o.established["in"] && o.established["out"] && !o.eof["in"] && !o.eof["out"] {
+		return "both-established", "both connections survived as Established"
+	}
+	if !o.established[second] && !o.eof[second] && !o.unresolved[second] {
+		return "second-connection-wedged", fmt.Sprintf("the connection the remote did not touch (%s) was neither established nor closed", second)
+	}
+	return monitorCallbacks(w)
+}
+
+// c07TwoRounds: a first forced collision is resolved and the winner Established; the remote
+// resets it with a Cease and comes back with an identifier on the OTHER side of the local one;
+// the second forced collision must be resolved by the new identifier.
+func c07TwoRounds(cfg collCfg, first string, bound int) *Scn {
+	cfg2 := cfg
+	if cfg.localDominant {
+		cfg2.remoteID = cfg.localID + 7
+	} else {
+		cfg2.remoteID = cfg.localID - 3
+	}
+	cfg2.localDominant = !cfg.localDominant
+	name := fmt.Sprintf("two-rounds/%s/%s-first", cfg.name, first)
+	return &Scn{Name: name, Bound: bound - 1, Run: func(ch vrt.Chooser, trace bool) *ScnResult {
+		var w *world.World
+		o1, o2 := newCollObs(), newCollObs()
+		o2.pfx = "r2-"
+		round := 1
+		e := vrt.Run(vrt.Config{Horizon: int64(60 * time.Second), Trace: trace, Chooser: ch}, func() {
+			w = world.New(libIP)
+			w.NewServer(ip4(cfg.localID))
+			pl := &world.Plugin{W: w, Peer: "P1", Marker: true}
+			run := func(r *world.Remote, dir string) {
+				if round == 1 {
+					o1.conn[dir] = r.C
+					forcedCollisionScript(cfg, first)(w, r, dir, o1)
+					if o1.established[dir] {
+						// reset the session; both sides then come back
+						r.Deadline(0)
+						r.Send(wire.Notification(6, 4, nil))
+						r.Deadline(2 * time.Second)
+						r.Drain()
+						round = 2
+						w.SetFlag("round2")
+					}
+					return
+				}
+				o2.conn[dir] = r.C
+				forcedCollisionScript(cfg2, first)(w, r, dir, o2)
+			}
+			w.NW.OnDial(remAddr, func(att int, from *net.TCPAddr) vnet.DialOutcome {
+				if att > 0 && round == 1 {
+					return vnet.DialOutcome{Kind: vnet.DialRefuse}
+				}
+				if round == 2 && o2.conn["out"] != nil {
+					return vnet.DialOutcome{Kind: vnet.DialRefuse}
+				}
+				return vnet.DialOutcome{Kind: vnet.DialAccept, Serve: func(c *vnet.Conn) {
+					r := w.NewRemote(c, "P1")
+					run(r, "out")
+					r.Finish()
+				}}
+			})
+			if err := w.Server.AddPeer(peerConfig(remIP, cfg.localAS, cfg.remoteAS), pl, corebgp.WithDialerControl(w.DialControl("P1")), corebgp.WithIdleHoldTime(time.Second)); err != nil {
+				panic("harness: " + err.Error())
+			}
+			w.Serve(libAddr)
+			dialIn := func(port int) {
+				vrt.GoWorld(fmt.Sprintf("remote-in%d", port), func() {
+					c, err := w.NW.DialIn(fmt.Sprintf("10.0.0.2:%d", port), libAddr)
+					if err != nil {
+						return
+					}
+					r := w.NewRemote(c, "P1")
+					run(r, "in")
+					r.Finish()
+				})
+			}
+			dialIn(40001)
+			w.WaitFlag("round2")
+			// the remote connects in again as soon as corebgp's new outbound connection carries its OPEN
+			dialIn(40002)
+			vrt.NewTimer(40 * time.Second)
+			dl := vrt.Cur().Now() + int64(40*time.Second)
+			vrt.WaitLog("round2-done", func() bool {
+				return vrt.Cur().Now() >= dl || (o2.established["in"] || o2.established["out"]) && (o2.probe["in"] || o2.probe["out"])
+			})
+			vrt.LogTouch()
+			w.Close()
+			w.WaitServeDone()
+		})
+		return finishRun("C07", "two-rounds", w, e, trace, false, func() (string, string) {
+			if r, m := judgeForcedCollision(cfg, w, o1); r != "" {
+				return "round1-" + r, m
+			}
+			if !o2.gotOpen["in"] || !o2.gotOpen["out"] {
+				return "", "" // the second collision did not form on this schedule (not the scenario's subject)
+			}
+			if r, m := judgeForcedCollision(cfg2, w, o2); r != "" && r != "setup" && !strings.HasPrefix(r, "callback") && r != "onclose-missing-at-return" {
+				return "round2-" + r, "second collision (remote now " + ip4(cfg2.remoteID) + "): " + m
+			}
+			return "", ""
+		}, nil)
+	}}
 }
 
 // forcedPrecedence: the remote completes connection x entirely, and only then
@@ -439,6 +562,18 @@ func c07Scenarios(th bool) []*Scn {
 					w, e, o := collRun(cfg, ch, trace, false, forcedCollisionScript(cfg, first), nil)
 					return finishRun("C07", "forced-collision", w, e, trace, false, func() (string, string) { return judgeForcedCollision(cfg, w, o) }, nil)
 				}})
+			if ci < 2 {
+				for _, how := range []string{"cease", "fin"} {
+					how := how
+					out = append(out, &Scn{Name: fmt.Sprintf("forced-kill/%s/%s-first/%s", cfg.name, first, how), Bound: bound,
+						Run: func(ch vrt.Chooser, trace bool) *ScnResult {
+							w, e, o := collRun(cfg, ch, trace, false, forcedCollisionScript(cfg, first, how), nil)
+							return finishRun("C07", "forced-kill", w, e, trace, false, func() (string, string) { return judgeForcedKill(first, w, o) }, nil)
+						}})
+				}
+				// a second collision of the same peer after the remote came back with an identifier on the other side
+				out = append(out, c07TwoRounds(cfg, first, bound))
+			}
 			out = append(out, &Scn{Name: fmt.Sprintf("forced-precedence/%s/%s-first", cfg.name, first), Bound: bound,
 				Run: func(ch vrt.Chooser, trace bool) *ScnResult {
 					w, e, o := collRun(cfg, ch, trace, false, forcedPrecedenceScript(cfg, first), nil)
